@@ -306,3 +306,60 @@ def check_C18(tier: str, seed: int) -> int:
     v.coverage = cov
     v.assumptions = ["enabledness: a queued vehicle whose own update fails (environment error) may be overtaken; the theorem states this explicitly"]
     return v.finish()
+
+
+MECH_BUDGET = {"quick": 1600, "thorough": 100000}
+
+
+def energy_check(prop: str, tier: str, seed: int, text_rule: str, assumptions: List[str]) -> int:
+    v = fw.Verdict(prop, tier, seed, "proof")
+    ps = fw.ProofStatus(prop, [f"Properties.{prop}"])
+    ml = layers.mech_layer(seed, MECH_BUDGET[tier])
+    ok1 = use_simple_layer(v, prop, ml, "mech", [prop])
+    n_hist, steps = HIST_BUDGET[tier]
+    hl = layers.hist_layer(seed, n_hist, steps)
+    ok2 = use_hist_layer(v, prop, hl, [prop])
+    if (not ps.ok or not ok1 or not ok2) and not v.violations:
+        big = layers.mech_layer(seed + 7919, MECH_BUDGET[tier] * 6)
+        use_simple_layer(v, prop, big, "mech", [prop])
+        big2 = layers.hist_layer(seed + 7919, n_hist * 4, steps)
+        use_hist_layer(v, prop, big2, [prop])
+        v.notes.append(f"escalated search: {big['cases']} further function cases, {big2['records']} further records")
+    if not ps.ok:
+        v.broken(f"proof obligation for {prop}: {ps.failing_obligation()}", {"theorem_or_build": ps.failing_obligation()})
+    cov = {**fw.proof_coverage(ps), **hist_coverage(hl)}
+    cov["evaluations"] = ml["cases"] + hl["records"]
+    cov["distinct_nontrivial"] = len(ml["shapes"])
+    cov["rule"] = text_rule
+    cov["samples"] = [ml["sample"]] + cov.get("samples", [])
+    cov["function_cases"] = ml["cases"]
+    cov["trusted_base"] = cov["trusted_base"] + ["numpy.interp is modelled (clamped piecewise-linear) and compared through the real TabularPowertrain / TabularPowercurve on generated tables"]
+    v.coverage = cov
+    v.assumptions = assumptions
+    return v.finish()
+
+
+@register("C04")
+def check_C04(tier: str, seed: int) -> int:
+    return energy_check(
+        "C04", tier, seed,
+        "function-level: generated BEV and ICE definitions (2-7 row consumption tables in mph/kmph and miles/km, 2-6 row charge curves with integration step in {1,7,30,60,300} s, "
+        "capacities, idle rates, taper cut-offs) × levels (0, full, near-empty, near-full, random) × {consume_energy over 0-4 links, idle, add_energy} × durations {1,7,30,60,90,3600} × "
+        "charger rates below/above the taper cut-off and plugs of the wrong energy type, through the real BEV/ICE methods vs the Lean model; bounds, ledger, strict expenditure, "
+        "charge monotonicity and the plug bound evaluated by Lean on the implementation's outputs; distinct_nontrivial = distinct (powertrain, operation, duration/links, "
+        "boundary flags, curve step) shapes; plus the history layer with the per-vehicle energy ledger monitor after every phase",
+        ["exact rational arithmetic (floating-point rounding is outside the theorems; comparisons use relative tolerance 1e-9)",
+         "valid mechatronics definitions (positive tables, capacities, rates) and non-negative charger rates — what the loaders accept",
+         "distances of driven links are non-negative (oracle property of the geometry)"])
+
+
+@register("C05")
+def check_C05(tier: str, seed: int) -> int:
+    return energy_check(
+        "C05", tier, seed,
+        "history layer: after every phase Lean checks on the implementation's pre/post states and events that energy gained by vehicles equals energy dispensed by stations per energy type, "
+        "vehicle balances changed by fares − charging payments, station balances by the payments received, and every charge event is priced amount × pre-state tariff of that station and plug; "
+        "charging sessions at stations and through bases, cut short by instructions or a full battery; function-level mechatronics cases as in C04 (the transferred amount). "
+        "distinct_nontrivial = distinct function-level shapes",
+        ["exact rational arithmetic; comparisons of sums use tolerance 1e-9·scale",
+         "partial: the history-level sum invariant is enforced by monitor, the Lean theorems are per charging step / per pickup"])
